@@ -1537,3 +1537,34 @@ Section Learn.
       split; [apply NoDup_filter; exact Hnd|]. split; [apply NoDup_filter, seq_NoDup | exact Hmem].
   Qed.
 End Learn.
+
+(* ------------------------------------------------------------------ values: what a full run leaves in the store *)
+Lemma render_ext sh mask st : render sh mask st = render sh mask st.
+Proof. reflexivity. Qed.
+
+(* _func_kwargs looks only at the entries of the function's own parameters *)
+Lemma lookup_arg_sel_frame c r r' f q :
+  dict_get (st_arr r) q = dict_get (st_arr r') q -> dict_get (st_val r) q = dict_get (st_val r') q ->
+  lookup_arg_sel c r f q = lookup_arg_sel c r' f q.
+Proof.
+  intros Ha Hv. unfold lookup_arg_sel, get_arr. rewrite Ha, Hv. reflexivity.
+Qed.
+
+Lemma mapM_ext_in {A B} (f g : A -> result B) l : (forall x, In x l -> f x = g x) -> mapM f l = mapM g l.
+Proof.
+  induction l as [|x l IH]; intros H; cbn; [reflexivity|].
+  rewrite (H x (or_introl eq_refl)), IH; [reflexivity|]. intros; apply H; right; assumption.
+Qed.
+
+Lemma func_kwargs_sel_frame c r r' f :
+  (forall q, In q (fparams f) -> dict_get (st_arr r) q = dict_get (st_arr r') q
+                                 /\ dict_get (st_val r) q = dict_get (st_val r') q) ->
+  func_kwargs_sel c r f = func_kwargs_sel c r' f.
+Proof.
+  intros H. unfold func_kwargs_sel. apply mapM_ext_in. intros q Hq. destruct (H q Hq) as [Ha Hv].
+  now rewrite (lookup_arg_sel_frame c r r' f q Ha Hv).
+Qed.
+
+Lemma stores_of_ext r r' f n : (forall o, In o (fouts f) -> dict_get (st_arr r) o = dict_get (st_arr r') o) ->
+  stores_of r f n = stores_of r' f n.
+Proof. intros H. unfold stores_of. apply map_ext_in. intros o Ho. unfold get_arr. now rewrite H. Qed.
